@@ -82,7 +82,9 @@ class BaseSampler(ABC):
             given_params = set.union(*[set(p.parameters) for p in proposals])
         else:
             given_params = set()
-        missing_params = set(self.parameters) - given_params
+        # note: keep the order of the parameters; the iteration order of a set
+        # of strings changes from one python session to the next
+        missing_params = [p for p in self.parameters if p not in given_params]
         if missing_params:
             proposals.append(default_proposal(missing_params,
                                               **default_proposal_args))
